@@ -6,8 +6,8 @@ import traceback
 from .common import NCPU
 
 
-class CaseTimeout(Exception):
-    pass
+class CaseTimeout(BaseException):
+    """BaseException: must not be swallowed by `except Exception` in the code under test or in a harness loop."""
 
 
 def _alarm(signum, frame):
@@ -17,7 +17,7 @@ def _alarm(signum, frame):
 def guarded(fn, arg, seconds):
     """Call fn(arg) under an alarm; returns ('ok', value) | ('timeout', None) | ('raise', repr)."""
     old = signal.signal(signal.SIGALRM, _alarm)
-    signal.setitimer(signal.ITIMER_REAL, seconds)
+    signal.setitimer(signal.ITIMER_REAL, seconds, max(0.5, seconds / 4.0))  # re-fires if the first one is swallowed
     try:
         return ("ok", fn(arg))
     except CaseTimeout:
